@@ -144,11 +144,181 @@ func unwrapCase(s *cases.Set, kek, d []byte, kind string) {
 		Replay: map[string]interface{}{"api": "go-aes-key-wrap.Unwrap", "kek": hx(kek), "data": hx(d), "observed": oh}})
 }
 
+// ---- keys of every length: AES-128/192/256 and the key-size error ----
+
+func anyKey(r *cq.RNG, i, n int) []byte {
+	k := make([]byte, n)
+	switch i % 7 {
+	case 0: // all zero
+	case 1:
+		for j := range k {
+			k[j] = 0xff
+		}
+	case 2: // 00 01 02 ... (FIPS-197 appendix C, RFC 3394 section 4)
+		for j := range k {
+			k[j] = byte(j)
+		}
+	case 3: // the second half repeats the first
+		copy(k, r.Bytes(n))
+		if n >= 16 {
+			copy(k[n-16:], k[:16])
+		}
+	case 4: // single bit in the last byte (beyond the first 16 bytes for 24/32-byte keys)
+		if n > 0 {
+			k[n-1] = 1 << uint(r.Intn(8))
+		}
+	default:
+		k = r.Bytes(n)
+	}
+	return k
+}
+
+func optBytes(b []byte, ok bool) (string, string) {
+	if !ok {
+		return cq.None, "key size error"
+	}
+	return cq.Some(cq.Bytes(b)), hx(b)
+}
+
+func aesAnyCase(s *cases.Set, k, b []byte, dec bool) {
+	block, err := aes.NewCipher(k)
+	o := make([]byte, 16)
+	name, ctor := "enc", "CAesEncAny"
+	if dec {
+		name, ctor = "dec", "CAesDecAny"
+	}
+	if err == nil {
+		if dec {
+			block.Decrypt(o, b)
+		} else {
+			block.Encrypt(o, b)
+		}
+	}
+	term, oh := optBytes(o, err == nil)
+	s.Add(cases.Case{Term: fmt.Sprintf("%s %s %s %s", ctor, cq.Bytes(k), cq.Bytes(b), term),
+		Key: fmt.Sprintf("aes-any-%s:keylen=%d:key=%s:block=%s", name, len(k), hx(k), hx(b)), Kind: fmt.Sprintf("aes-any-%s-keylen%d", name, len(k)), Nontrivial: true,
+		Replay: map[string]interface{}{"api": "crypto/aes NewCipher + Block." + map[bool]string{false: "Encrypt", true: "Decrypt"}[dec],
+			"key": hx(k), "block": hx(b), "observed": oh}})
+}
+
+func wrapAnyCase(s *cases.Set, kek, p []byte) []byte {
+	block, err := aes.NewCipher(kek)
+	var o []byte
+	if err == nil {
+		var werr error
+		o, werr = keywrap.Wrap(block, p)
+		if werr != nil {
+			s.Fail(cases.GoFail{Key: "wrap-any:error:" + hx(kek) + ":" + hx(p), What: "keywrap.Wrap failed on whole 8-byte blocks: " + werr.Error(),
+				Replay: map[string]interface{}{"api": "go-aes-key-wrap.Wrap", "kek": hx(kek), "plain": hx(p)}})
+			return nil
+		}
+	}
+	term, oh := optBytes(o, err == nil)
+	s.Add(cases.Case{Term: fmt.Sprintf("CWrapAny %s %s %s", cq.Bytes(kek), cq.Bytes(p), term),
+		Key: fmt.Sprintf("wrap-any:keklen=%d:kek=%s:plain=%s", len(kek), hx(kek), hx(p)), Kind: fmt.Sprintf("wrap-any-keklen%d-n%d", len(kek), len(p)/8), Nontrivial: true,
+		Replay: map[string]interface{}{"api": "crypto/aes NewCipher + go-aes-key-wrap.Wrap", "kek": hx(kek), "plain": hx(p), "observed": oh}})
+	return o
+}
+
+func unwrapAnyCase(s *cases.Set, kek, d []byte, kind string) {
+	block, err := aes.NewCipher(kek)
+	obs, oh := cq.None, "key size error"
+	if err == nil {
+		var o []byte
+		var uerr error
+		panicked := false
+		func() {
+			defer func() {
+				if recover() != nil {
+					panicked = true
+				}
+			}()
+			o, uerr = keywrap.Unwrap(block, d)
+		}()
+		if panicked {
+			s.Fail(cases.GoFail{Key: "unwrap-any:panic:" + hx(kek) + ":" + hx(d), What: "keywrap.Unwrap panicked on an input of >= 16 bytes",
+				Replay: map[string]interface{}{"api": "go-aes-key-wrap.Unwrap", "kek": hx(kek), "data": hx(d)}})
+			return
+		}
+		if uerr == nil {
+			obs, oh = cq.Some(cq.Some(cq.Bytes(o))), hx(o)
+		} else {
+			obs, oh = cq.Some(cq.None), "integrity error"
+		}
+	}
+	s.Add(cases.Case{Term: fmt.Sprintf("CUnwrapAny %s %s %s", cq.Bytes(kek), cq.Bytes(d), obs),
+		Key: fmt.Sprintf("unwrap-any:keklen=%d:kek=%s:data=%s", len(kek), hx(kek), hx(d)), Kind: fmt.Sprintf("unwrap-any-keklen%d-%s", len(kek), kind), Nontrivial: true,
+		Replay: map[string]interface{}{"api": "crypto/aes NewCipher + go-aes-key-wrap.Unwrap", "kek": hx(kek), "data": hx(d), "observed": oh}})
+}
+
+func anyCases(s *cases.Set, r *cq.RNG, thorough bool) {
+	nAes, nWrap := 14, 5
+	if thorough {
+		nAes, nWrap = 500, 130
+	}
+	c1 := []byte{0x00, 0x11, 0x22, 0x33, 0x44, 0x55, 0x66, 0x77, 0x88, 0x99, 0xaa, 0xbb, 0xcc, 0xdd, 0xee, 0xff}
+	// FIPS-197 C.1 / C.2 / C.3 and RFC 3394 4.1 .. 4.6 first
+	for _, kl := range []int{16, 24, 32} {
+		aesAnyCase(s, anyKey(r, 2, kl), c1, false)
+		for _, pl := range []int{16, 24, 32} {
+			if pl <= kl {
+				p := append(append([]byte{}, c1...), anyKey(r, 2, pl-16)...)
+				if w := wrapAnyCase(s, anyKey(r, 2, kl), p); w != nil {
+					unwrapAnyCase(s, anyKey(r, 2, kl), w, "valid")
+				}
+			}
+		}
+	}
+	for _, kl := range []int{16, 24, 32} {
+		for i := 0; i < nAes; i++ {
+			k := anyKey(r, i, kl)
+			b := pickData(r, i/7, 16)
+			aesAnyCase(s, k, b, false)
+			aesAnyCase(s, k, b, true)
+		}
+		for i := 0; i < nWrap; i++ {
+			kek := anyKey(r, i+2, kl)
+			n := 2
+			if i%3 == 1 {
+				n = 1 + r.Intn(5)
+			}
+			p := pickData(r, i, 8*n)
+			w := wrapAnyCase(s, kek, p)
+			if w == nil {
+				continue
+			}
+			unwrapAnyCase(s, kek, w, "valid")
+			c := append([]byte{}, w...)
+			c[r.Intn(len(c))] ^= 1 << uint(r.Intn(8))
+			unwrapAnyCase(s, kek, c, "bitflip")
+			k2 := append([]byte{}, kek...)
+			k2[kl-1-r.Intn(8)] ^= 1 << uint(r.Intn(8)) // one of the last 8 bytes of the KEK
+			unwrapAnyCase(s, k2, w, "wrong-kek-tail-bit")
+			switch kl {
+			case 16:
+				unwrapAnyCase(s, append(append([]byte{}, kek...), kek[:8]...), w, "wrong-kek-other-size")
+			default:
+				unwrapAnyCase(s, kek[:16], w, "wrong-kek-other-size")
+			}
+			unwrapAnyCase(s, kek, append(append([]byte{}, w...), r.Bytes(1+r.Intn(7))...), "valid-plus-partial-block")
+			unwrapAnyCase(s, kek, r.Bytes(16+r.Intn(32)), "random-length")
+		}
+	}
+	// key sizes crypto/aes refuses
+	for _, kl := range []int{0, 1, 8, 15, 17, 20, 23, 25, 31, 33, 40, 48, 64} {
+		aesAnyCase(s, anyKey(r, 5, kl), r.Bytes(16), false)
+		aesAnyCase(s, anyKey(r, 5, kl), r.Bytes(16), true)
+		wrapAnyCase(s, anyKey(r, 5, kl), r.Bytes(16))
+		unwrapAnyCase(s, anyKey(r, 5, kl), r.Bytes(24), "bad-kek-size")
+	}
+	s.Exhaustive("key sizes 0, 1, 8, 15, 16, 17, 20, 23, 24, 25, 31, 32, 33, 40, 48, 64 through crypto/aes.NewCipher: accepted exactly for 16, 24, 32")
+}
+
 func main() {
 	dir, seed, thorough := cases.Args()
 	r := cq.NewRNG(seed)
 	s := cases.New("crypto", dir, "LW.Corr.Crypto",
-		"AES-128 encrypt/decrypt on structured and random keys/blocks; CMAC on every message length 0..80 (plus long ones); key wrap of 1..5 blocks and unwrap of valid, bit-flipped, truncated/extended and random ciphertexts; every case is non-trivial (distinct = distinct printed case)")
+		"AES-128 encrypt/decrypt on structured and random keys/blocks; CMAC on every message length 0..80 (plus long ones); key wrap of 1..5 blocks and unwrap of valid, bit-flipped, truncated/extended and random ciphertexts; AES-128/192/256 encrypt/decrypt and key wrap/unwrap under 16/24/32-byte keys (FIPS-197 C.1-C.3 and RFC 3394 4.1-4.6 first, structured and random keys, wrong KEK of the same and of another size) and the key-size error for every other length; every case is non-trivial (distinct = distinct printed case)")
 	nAes, nCmacExtra, nWrap := 45, 20, 22
 	if thorough {
 		nAes, nCmacExtra, nWrap = 1500, 800, 400
@@ -216,6 +386,7 @@ func main() {
 			unwrapCase(s, kek, r.Bytes(16+r.Intn(32)), "random-length")
 		}
 	}
+	anyCases(s, r.Fork(), thorough)
 	if err := s.Finish(); err != nil {
 		fmt.Fprintln(os.Stderr, err)
 		os.Exit(1)
